@@ -316,24 +316,25 @@ func (b Bytes) ArrayEnumerator() ValueEnumerator {
 }
 
 func isBytesTuple(v Value) (index int, b byte, is bool) {
-	is = bytesTupleMatcher(func(i int, b2 byte) { index = i; b = b2 }).Match(v)
+	matched := false
+	is = bytesTupleMatcher(func(i int, b2 byte) { index = i; b = b2; matched = true }).Match(v) && matched
 	return
 }
 
 func bytesTupleMatcher(match func(index int, b byte)) TupleMatcher {
 	n := 0
-	var index int
-	var b byte
+	var index, b int
 	check := func() {
-		if n == 1 {
-			match(index, b)
+		// a number outside 0..255 is not a byte (and must not wrap around to one)
+		if n == 1 && 0 <= b && b <= 255 {
+			match(index, byte(b))
 		}
 		n++
 	}
 	return NewTupleMatcher(
 		map[string]Matcher{
 			"@":           MatchInt(func(i int) { index = i; check() }),
-			BytesByteAttr: MatchInt(func(i int) { b = byte(i); check() }),
+			BytesByteAttr: MatchInt(func(i int) { b = i; check() }),
 		},
 		Lit(EmptyTuple),
 	)
